@@ -111,9 +111,9 @@ def build(model, ranks=None, plain=False, default_resource_ids=False, share_id_o
                 )
             )
         if mj.get("ctor_targets"):
-            # targets handed to the constructor: registered on the team side only (task.allocated_team_list stays empty)
+            # some targets handed to the constructor: registered on the team side only (task.allocated_team_list lacks the team)
             tm = M.btm.BaseTeam(name=mj.get("name", mj["id"]), ID=mj["id"], worker_list=workers,
-                                targeted_task_list=[tasks[k] for k in mj.get("targets", [])])
+                                targeted_task_list=[tasks[k] for k in mj.get("targets", []) if k in mj["ctor_targets"]])
         else:
             tm = M.btm.BaseTeam(name=mj.get("name", mj["id"]), ID=mj["id"], worker_list=workers)
         teams.append(tm)
@@ -143,8 +143,7 @@ def build(model, ranks=None, plain=False, default_resource_ids=False, share_id_o
     for kind_, i_ in reg:
         if kind_ == "team":
             mj = model["teams"][i_]
-            if not mj.get("ctor_targets"):
-                teams[i_].extend_targeted_task_list([tasks[k] for k in mj.get("targets", [])])
+            teams[i_].extend_targeted_task_list([tasks[k] for k in mj.get("targets", []) if k not in (mj.get("ctor_targets") or [])])
         else:
             wps[i_].extend_targeted_task_list([tasks[k] for k in model["wps"][i_].get("targets", [])])
     if share_id_objects:
